@@ -21,7 +21,7 @@ CLASS_GROUP = {
     "eol_c": "line-eol", "nosp_c": "line-eol", "own_c": "line-own", "own_c_ind": "line-own",
     "blank_own_c": "line-own", "two_c": "line-own", "uni_c": "line-own", "shebang_c": "line-own",
     "inl_blk": "block-inline", "inl_blk_tight": "block-inline", "lead_blk": "block-inline",
-    "ctl_c": "line-eol", "ctl_blk": "block-inline", "two_blk": "block-inline", "blk_eol_c": "line-eol", "own_blk_eol_c": "line-own",
+    "ctl_c": "line-eol", "ctl_blk": "block-inline", "two_blk": "block-inline", "three_blk": "block-inline", "two_blk_eol_c": "line-eol", "blk_eol_c": "line-eol", "own_blk_eol_c": "line-own",
     "eol_blk": "block-eol", "own_blk": "block-own", "doc": "block-own", "ml_blk": "block-ml",
 }
 
@@ -33,7 +33,7 @@ CLASS_VARIANT = {
     "eol_c_crlf": "crlf", "eol_c_crlf_blank": "crlf-blank-line-after", "blk_edge": "wording-ends-in-closer-chars",
     "ctl_c": "python-only-line-boundary-char", "ctl_blk": "python-only-line-boundary-char",
     "two_blk": "two-comments-on-one-line", "blk_eol_c": "two-comments-on-one-line",
-    "own_blk_eol_c": "two-comments-on-one-line",
+    "own_blk_eol_c": "two-comments-on-one-line", "three_blk": "two-comments-on-one-line", "two_blk_eol_c": "two-comments-on-one-line",
 }
 
 
